@@ -108,6 +108,14 @@
 (*   pairs    <= 2 present fields with independent shapes (width is per    *)
 (*            field)                                                       *)
 (*   full4    the classes with 4 fields: every subset x independent shapes *)
+(*   hist*    histories: <= 2 mutations of the record lists (append / size *)
+(*            in place / assign / delete), a dump after each               *)
+(*   alias    PARSED paragraphs whose lists hold the same record 2 or 3    *)
+(*            times, in-place edits of one position                        *)
+(*   live     the object's own size_field_behavior (set, re-set, untouched  *)
+(*            default) interleaved with steps of OTHER live objects        *)
+(*            (Release with either behaviour, PdiffIndex, Changes, Dsc),   *)
+(*            also before the object is created                            *)
 (* Parse prints one CASE line per explored paragraph (expected layout,     *)
 (* widths, names) for props/c12.py to replay into the real classes.        *)
 (***************************************************************************)
